@@ -218,6 +218,9 @@ def run(ck, extra_overlay=None):
     cfg = "ChannelCloseTrace_C05.cfg"
     obs = ("CloseCheck",)
     ok = judge(ck, prop, recs, cfg, obs, "C05")
+    ndiv = res["out"].count("VERIF-DIVERGED ")
+    if ndiv and ok and not ck.violations and not ck.known_hits:
+        raise Inconclusive("%d behaviours could not be replayed to the end, yet every recorded step conforms" % ndiv)
     cc = [r for r in recs if r["a"] == "CloseCheck"]
     evidence(ck, recs, g, obs,
              "close checks on reloaded channels after every %s call and whenever a pending remote commitment "
